@@ -103,9 +103,14 @@ def _plain(v: Any) -> bool:
 def file_identity(name: str, ftype: str) -> Tuple[str, str]:
     """The file system's naming convention (file.py File.__init__, relied upon by the repository's tests): a name
     without extension and with a known type is stored as ``name.<type>``; a name with an extension determines the
-    type itself (the declared type is then not an independent attribute: unconstrained)."""
+    type itself (the declared type is then not an independent attribute)."""
     if "." in name:
-        return name, ""
+        # the extension (the text after the LAST dot) names the type; file_type.py: "If a matching extension does not
+        # exist, FileType.UNKNOWN is returned" (the enum's member names are the vocabulary of extensions)
+        from primaite.simulator.file_system.file_type import FileType
+
+        ext = name.rsplit(".", 1)[1].upper()
+        return name, (ext if ext in FileType.__members__ else "UNKNOWN")
     if ftype and ftype.upper() != "UNKNOWN":
         return f"{name}.{ftype.lower()}", ftype.upper()
     return name, ftype.upper()
